@@ -1,5 +1,8 @@
 """Which properties are claimed (drives MANIFEST.json via gen_manifest.py)."""
 CLAIMED = {
+    "C19": ("Lean 4: general lemmas about the EnumMap lookup model (case-insensitivity, get/in/[] agreement) + decide +kernel over every table regenerated from the live classes (names resolve, codes resolve back, status text total); exhaustive correspondence over all members x casings x accessors",
+            "the quantifier is the finite set of tables the source declares now; it is re-extracted and re-decided by the kernel on every run, and the model's lookup function is compared exhaustively with MapMeta",
+            "DESIGN.md §7 C19"),
     "C06": ("Lean 4 theorems by mutual structural induction over the type grammar (decode∘encode = id with arbitrary trailing bytes, unbounded and length-prefixed arrays, truncation, dict = sequence) + differential correspondence of every codec incl. StructTag/STRINGI/STRINGN and exhaustive 8/16-bit domains",
             "round trip proved for all values of the tail-safe grammar fragment at any nesting depth (Canon); STRINGN/STRINGI/StructTag/IPAddress/bit-string arrays are covered by correspondence + oracle only (partial)",
             "DESIGN.md §7 C06"),
@@ -14,6 +17,9 @@ CLAIMED = {
             "DESIGN.md §7 C17"),
 }
 _PENDING = "not claimed yet: model/theorems/correspondence for this property are still being built (no technique switch; see DESIGN.md §7)"
-NOT_CLAIMED = {("C%02d" % i): _PENDING for i in range(1, 20)}
+NOT_CLAIMED = {
+    "C19": ("Lean 4: general lemmas about the EnumMap lookup model (case-insensitivity, get/in/[] agreement) + decide +kernel over every table regenerated from the live classes (names resolve, codes resolve back, status text total); exhaustive correspondence over all members x casings x accessors",
+            "the quantifier is the finite set of tables the source declares now; it is re-extracted and re-decided by the kernel on every run, and the model's lookup function is compared exhaustively with MapMeta",
+            "DESIGN.md §7 C19"),("C%02d" % i): _PENDING for i in range(1, 20)}
 for k in CLAIMED:
     NOT_CLAIMED.pop(k, None)
